@@ -41,7 +41,7 @@ theorem apeCore_definition (ref est : Pose Rat) :
 theorem ape_angle_unit_consistent (rel : PoseRelation) (ref est : Pose Rat) (c s : Rat) (d : Bool)
     (h : apeCore rel ref est = .angle c s d) :
     (d = true ↔ rel.apeUnit = "deg") ∧ (d = false ↔ rel.apeUnit = "rad") := by
-  cases rel <;> simp only [apeCore, reduceE] at h <;> first | (cases h) | (injection h with _ _ hd; subst hd; decide)
+  cases rel <;> simp only [apeCore, reduceE] at h <;> cases h <;> simp [PoseRelation.apeUnit]
 
 /-- sequences of different length are refused, not truncated -/
 theorem ape_refuses_unequal (rel : PoseRelation) (ref est : List (Pose Rat)) (h : ref.length ≠ est.length) :
